@@ -17,16 +17,19 @@ A Slot is (concrete class name, storage field); a write through a property is re
 Tie (C) + oracle on the REAL code, per generated model (seeded small networks from harness/gen_networks.py + controls, rules,
 leaks, PDD added here):
   a. wn.to_dict() is deep-equal before / after WNTRSimulator.run_sim and EpanetSimulator.run_sim,
-  b. run -> reset_initial_values -> run (and sometimes a third cycle) reproduces every results table EXACTLY,
-  c. a deepcopy and a from_dict(to_dict) / JSON copy simulate to the same tables (exact / 1e-9 relative),
+  b. run -> reset_initial_values -> run (and sometimes a third cycle) reproduces every results table (1e-9 relative, see below),
+  c. a deepcopy and a from_dict(to_dict) / JSON copy (when its dictionary is equal) simulate to the same tables,
   d. every attribute write on a network object observed during the runs (recording `__setattr__` wrappers, removed afterwards)
      is covered by Gen.written; fresh == reset == run+reset on the written slots, slot by slot.
 
-Tolerance decision (b, c): the unchanged WNTRSimulator is deterministic bit for bit on the same Python objects (same
-dict/registry iteration order, same scipy/SuperLU calls), so run/reset/run and deepcopy comparisons are EXACT
-(`np.array_equal`, NaN == NaN).  The dictionary / JSON copy rebuilds registries through the API; element order is kept, floats
-travel as Python floats (exact), so it is compared exactly as well and falls back to 1e-9 relative only for the statement's
-"up to floating-point noise" (counted as `copy:float-noise` in the histogram, never silently).
+Tolerance decision (b, c): exact comparison was tried first and fails on the UNCHANGED tree: two runs of the same model
+object (run / reset / run) differ in the last bits (observed max relative difference 1e-16 .. 1e-13).  Cause:
+wntr/sim/aml/evaluator.cpp keeps variables and constraints in `std::set<Var*>` / `std::set<Constraint*>`, i.e. ordered by heap
+address, so every newly built hydraulic model numbers its unknowns / rows differently and SuperLU pivots differently.  Hence
+continuous tables are compared with |x - y| <= 1e-9 * max(|x|, |y|) + 1e-9 * max(1e-3, max|table|) (four orders above the
+observed noise, and still below the ~1e-8 effect of a stale valve status found by the self-test); link status tables, the
+time index, error codes and exception outcomes are compared exactly.  The histogram records the observed noise
+(`rerun-noise:*`).  The same tolerance is the statement's "floating-point noise" for deepcopy / reloaded models.
 """
 import ast
 import copy
@@ -1846,19 +1849,21 @@ class Judge:
         self.count("outcome:" + r1[0] + (":" + r1[1] if r1[0] == "raised" else ""))
         self.count("rerun:" + ("same" if diff12 is None else "differs"))
         left = dump_diff(R0, R1)
-        if diff12 is not None:
-            out.append(("rerun-differs-after-reset", "run / reset_initial_values / run gives different results: " + diff12,
-                        {"reset_leaves": {"%s.%s" % k: v[:3] for k, v in left.items()}}))
+        mr = max_rel_diff(r1, r2)
+        self.count("rerun-noise:" + ("0" if mr == 0 else "<=1e-12" if mr <= 1e-12 else "<=1e-9" if mr <= 1e-9 else "<=1e-6" if mr <= 1e-6 else ">1e-6"))
         dict_changed = [k for k, _, _ in out if k.startswith("to_dict-changed")]
         reads = set(self.tabs["toDictReads"])
         causal_left = []
-        if diff12 is not None and left and not light:
+        if diff12 is not None and left:
             causal_left = self._causal(lambda: self._used_model(spec), wn_reset_twin(wntr, spec), sorted(left), r1, spec)
+        if diff12 is not None and not causal_left:
+            out.append(("rerun-differs-after-reset", "run / reset_initial_values / run gives different results: " + diff12,
+                        {"reset_leaves": {"%s.%s" % k: v[:3] for k, v in left.items()}}))
         for (c, f), items in left.items():
             self.count("reset-leaves:%s.%s" % (c, f))
             why = None
             if (c, f) in causal_left:
-                why = "the rerun differs because of it"
+                why = "run / reset_initial_values / run differs because of it (%s)" % diff12
             elif dict_changed and (c, f) in reads and any((":%s." % family([c])) in k for k in dict_changed):
                 why = "to_dict reads it and differs"
             if why:
@@ -2053,9 +2058,14 @@ class C11(Check):
         "equality before/after WNTRSimulator and EpanetSimulator, exact reproduction of every results table over run/reset/run cycles, "
         "deepcopy and JSON-reloaded models, and every attribute write observed at run time must be inside the generated `written` table.",
         design_ref="DESIGN.md §5 C11",
-        note="modelled, not verified: the numerical solver (equal stores give equal results is an assumption of the frame theorem, "
-        "exercised by the exact rerun comparison); registries / OrderedSets mutated in place (observer lists) are not slots; the tables are "
-        "class-level over-approximations (hasattr reflection on a zoo model). Known: a base_speed control rewrites the pump definition.",
+        note="the completeness of the generated tables (every assignment a run performs is in `written`) is CHECKED by the run-time write "
+        "trace on every generated model, not proved; `assumedIgnorable` (Control/Rule._condition._backtrack, Control/Rule._which, "
+        "HeadPump._curve_coeffs/_coeffs_curve_points, WaterNetworkModel._inpfile, Rule._name, Reservoir._leak_status: written, not reset) is a "
+        "hypothesis of the Lean theorems that only the rerun oracle checks. Modelled, not verified: the numerical solver (equal stores give "
+        "equal results is an assumption of the frame theorem; reruns agree to ~1e-13, compared at 1e-9 relative because evaluator.cpp orders "
+        "unknowns by heap address); registries / OrderedSets mutated in place (observer lists) are not slots; tables are class-level "
+        "over-approximations (hasattr reflection on a zoo model). Known: a base_speed control rewrites the pump definition; add_pump/add_valve "
+        "do not initialise _user_status (fix proposed).",
         technique="Lean 4 frame theorems over translator-regenerated read/write tables + run-time write trace + differential reruns on the implementation",
     )
     rule = ("obligations: theorems of Props/C11.lean over Gen/FrameC11.lean. correspondence cases: one per generated model (directed "
@@ -2113,6 +2123,7 @@ class C11(Check):
         J = Judge(wntr, self.tabs, tmpdir, ctx)
         failures = []
         seen_keys = {}
+        shrunk = {}
         t0 = time.time()
         limit = (75 if ctx.quick else 780)
         try:
@@ -2135,15 +2146,16 @@ class C11(Check):
                     ctx.sample({"case": label, "features": feats, "nodes": len(sp["net"]["nodes"]), "links": len(sp["net"]["links"]),
                                 "controls": len(sp.get("controls", [])), "failures": [k for k, _, _ in res]})
                 for key, what, extra in res:
-                    full = key
-                    small = sp
-                    if key == "rerun-differs-after-reset" or key.startswith("reset-does-not-restore"):
-                        if key not in seen_keys or True:
-                            small = shrink(J, sp, key) if (key, feature_key(sp)) not in seen_keys else sp
-                        full = key + ":" + feature_key(small) if key == "rerun-differs-after-reset" else key
-                    elif key.startswith("to_dict-changed") and full not in seen_keys:
+                    full, small = key, sp
+                    if key == "rerun-differs-after-reset":
+                        # name the failure after the model FEATURE that causes it: shrink (once per feature combination)
+                        fk = (key, feature_key(sp))
+                        if fk not in shrunk:
+                            small = shrink(J, sp, key)
+                            shrunk[fk] = key + ":" + feature_key(small)
+                        full = shrunk[fk]
+                    elif key.startswith(("to_dict-changed", "reset-does-not-restore")) and key not in seen_keys:
                         small = shrink(J, sp, key)
-                    seen_keys[(key, feature_key(sp))] = True
                     if full in seen_keys:
                         ctx.count("failure-repeat:" + full)
                         continue
@@ -2196,7 +2208,7 @@ class C11(Check):
             except OSError:
                 pass
         want = rp.get("oracle") or r.get("key")
-        hit = [(k, w) for k, w, _ in res if k == want or k == r.get("key")]
+        hit = [(k, w) for k, w, _ in res if want is None or k == want or k == r.get("key") or (r.get("key") or "").startswith(k + ":")]
         for k, w, _ in res:
             print("  oracle: %s -- %s" % (k, w[:200]))
         print("replay: %s" % ("REPRODUCED " + hit[0][1][:300] if hit else "not reproduced on the current tree"))
